@@ -588,4 +588,9 @@ def run(ctx: Ctx):
     c.check_pair_score()
     if got:
         c.check_means(*got)
+    # "paired only if their geometries overlap" and the reported affinity rest on the matcher (anchored file
+    # evaluation/match.py): C07's rules are necessary conditions
+    from . import c07
+    with ctx.delegated("C07/"):
+        c07.run_for_detection(ctx)
     return EXPLANATION, ASSUMPTIONS
